@@ -329,14 +329,18 @@ fn reader_strategy() -> impl Strategy<Value = ReaderCase> {
         any::<u16>(),
         any::<bool>(),
         1u8..=3,
-        prop::collection::vec(1usize..=5, 1..=4),
+        prop_oneof![
+            12 => prop::collection::vec(1usize..=5, 1..=4).boxed(),
+            // data sections around 512 B .. 64 KiB (block-wise readers), every value compared
+            1 => prop_oneof![Just(vec![1024usize]), Just(vec![2048]), Just(vec![4096]), Just(vec![8192]), Just(vec![1025]), Just(vec![64, 64]), Just(vec![3, 2731]), Just(vec![8193]), Just(vec![511]), Just(vec![2, 2, 128])].boxed(),
+        ],
         prop::collection::vec((any::<u64>(), any::<u16>(), any::<bool>()), 1..=40),
         prop::option::weighted(0.7, spelling_strategy()),
     )
         .prop_map(|(d, big, version, mut shape, raw, spelling)| {
             let dtype = ALL_DTYPES[pick_idx(d, ALL_DTYPES.len())];
             let order = if big { Order::Big } else { Order::Little };
-            while elements(&shape) > 600 {
+            while elements(&shape) > 600 && shape.iter().all(|l| *l <= 5) {
                 shape.pop();
             }
             let n = elements(&shape);
@@ -613,7 +617,7 @@ pub fn check(ctx: &Ctx) -> Check {
         }),
         Box::new(RandomPart {
             name: "reader-random",
-            rule: "random dtype/order/version/shape/values with header spelling variants (quote character, 0..2 spaces around ':' and ',', key order, trailing comma, tuple spacing, 16- or 64-byte alignment); non-trivial = some element not identically representable in every dtype (raw value > 127)",
+            rule: "random dtype/order/version/shape/values (one file in thirteen with 511 .. 8 193 values: data sections around 512 B .. 64 KiB) with header spelling variants (quote character, 0..2 spaces around ':' and ',', key order, trailing comma, tuple spacing, 16- or 64-byte alignment); non-trivial = some element not identically representable in every dtype (raw value > 127)",
             cases: ctx.tier.pick(10_000, 600_000),
             strategy: Box::new(|| reader_strategy().boxed()),
             eval: Box::new(eval_reader),
